@@ -194,6 +194,13 @@ func checkTables(c *mon.Ctx, stage string, idx int64, r *rand.Rand, kind refts.T
 	if kind == refts.KindPAT || kind == refts.KindPMT {
 		wp := ptr
 		model := &astits.PSIData{PointerField: wp, Sections: mon.Clone(u.Sections)}
+		if idx%2 == 1 {
+			// section_length as found in the struct is whatever the section had where it came from (non-zero): the writer computes it
+			for _, sec := range model.Sections {
+				sec.Header.SectionLength = uint16(1 + r.UintN(4093))
+			}
+			c.Count("sections_written_with_a_stale_section_length")
+		}
 		var want []byte
 		want = append(want, byte(wp))
 		want = append(want, make([]byte, wp)...)
